@@ -150,6 +150,27 @@ def _rule_R14(text, args):
     return rx.subn(lambda m: "for vi__ in it: 0..(%s) /*@loophead*/ { let %s = &%s[vi__];" % (m.group("n").strip(), m.group("pat"), m.group("e")), text)
 
 
+def _rule_R17(text, args):
+    # for t in E.iter() {   ->   for vi in it: 0..E.len() { let t = &E[vi];    (same shape as R14, whole slice)
+    name = args[0] if args else "it"
+    rx = re.compile(r"for\s+(?P<pat>" + IDENT + r")\s+in\s+(?P<e>" + IDENT + r"(?:\." + IDENT + r")*)\.iter\(\)\s*\{")
+    return rx.subn(lambda m: "for vi__ in %s: 0..(%s).len() /*@loophead*/ { let %s = &%s[vi__];" % (name, m.group("e"), m.group("pat"), m.group("e")), text)
+
+
+def _rule_R18(text, args):
+    # X.extend(E.iter().rev().copied());  ->  vstub_extend_rev(X, E);     X.extend(ident);  ->  vstub_extend_all(X, ident);
+    # (Vec::extend over iterator adapters is outside Verus; the two std behaviours are bound to trusted stubs:
+    #  append the elements of E in reverse order / in order)
+    n = 0
+    rx1 = re.compile(r"(?P<x>" + IDENT + r")\.extend\(\s*(?P<e>[^;]*?)\.iter\(\)\.rev\(\)\.copied\(\)\s*\)\s*;")
+    text, k = rx1.subn(lambda m: "vstub_extend_rev(%s, %s);" % (m.group("x"), m.group("e")), text)
+    n += k
+    rx2 = re.compile(r"(?P<x>" + IDENT + r")\.extend\(\s*(?P<e>" + IDENT + r")\s*\)\s*;")
+    text, k = rx2.subn(lambda m: "vstub_extend_all(%s, %s);" % (m.group("x"), m.group("e")), text)
+    n += k
+    return text, n
+
+
 def _rule_R6(text, args):
     # path normalisation for the one-file unit: args are from=to pairs (e.g. super::OptionalSpace=OptionalSpace)
     n = 0
@@ -179,7 +200,7 @@ def _rule_R16(text, args):
     return rx.subn(lambda m: 'write!(%s, "{}%s", %s)' % (m.group(1), m.group(3), m.group(2)), text)
 
 
-RULES = {"R16": _rule_R16, "R15": _rule_R15, "R6": _rule_R6, "R14": _rule_R14, "R13": _rule_R13, "R1": _rule_R1, "R4": _rule_R4, "R4rev": _rule_R4rev, "R11": _rule_R11, "R8": _rule_R8, "R7": _rule_R7,
+RULES = {"R18": _rule_R18, "R17": _rule_R17, "R16": _rule_R16, "R15": _rule_R15, "R6": _rule_R6, "R14": _rule_R14, "R13": _rule_R13, "R1": _rule_R1, "R4": _rule_R4, "R4rev": _rule_R4rev, "R11": _rule_R11, "R8": _rule_R8, "R7": _rule_R7,
          "R9": _rule_R9, "R12": _rule_R12}
 
 
